@@ -49,6 +49,8 @@ static _Atomic rid_t c_a = 0;
 static _Atomic rid_t c_b = 0;
 
 static _Atomic nid_t gvt_nodes;
+/// The count of GVT reductions completed by this thread
+static __thread unsigned gvt_completed;
 /// The count of local threads which left the main loop and are waiting in gvt_msg_drain()
 static _Atomic rid_t drain_waiting;
 
@@ -258,8 +260,12 @@ static bool gvt_node_phase_run(void)
 
 simtime_t gvt_phase_run(void)
 {
-	if(unlikely(thread_phase))
-		return gvt_node_phase_run() ? *reducing_p : 0.0;
+	if(unlikely(thread_phase)) {
+		if(!gvt_node_phase_run())
+			return 0.0;
+		++gvt_completed;
+		return *reducing_p;
+	}
 
 	if(unlikely(atomic_load_explicit(&c_b, memory_order_relaxed)))
 		gvt_start_processing();
@@ -307,8 +313,13 @@ void gvt_msg_drain(void)
 	VH(VH_DRAIN, NULL, 2, 0);
 	for(int i = 0; i < 2; ++i) { // flush both gvt phases
 		gvt_timer = 0;       // this satisfies the timer condition
-		while(!gvt_phase_run())
+		// The value of a reduction cannot be used to tell that it is over: it is legitimately 0.0 when events
+		// with timestamp 0 are still queued (e.g. after an early RootsimStop())
+		unsigned completed = gvt_completed;
+		while(gvt_completed == completed) {
+			gvt_phase_run();
 			mpi_remote_msg_drain();
+		}
 		VH(VH_DRAIN, NULL, 3, i);
 	}
 	VH(VH_DRAIN, NULL, 4, 0);
